@@ -63,6 +63,19 @@ def gen_case(seed):
     return {"name": "crash-%d" % seed, "ops": ops, "kill_at": kill_at, "mode": mode, "delay_us": r.choice([0, 20, 60, 120, 250, 500, 1000, 3000])}
 
 
+def hook_kill_case(seed):
+    """an HTTP append with content, the process dying at a sync point inside `Store::append` (the frame's batch committed,
+    or just broadcast): the frame is visible in the image, so its content must be too"""
+    r = random.Random(seed)
+    ops = [{"op": "open"}, {"op": "serve"}]
+    for _ in range(r.randint(0, 2)):
+        ops.append({"op": "http", "method": "POST", "target": "/c", "body": bytes(r.randrange(256) for _ in range(r.choice([3, 200]))), "meta": None})
+    ops.append({"op": "arm_kill", "point": r.choice(["append.commit", "append.broadcast"]), "suffix": "c"})
+    ops.append({"op": "http", "method": "POST", "target": "/c" + r.choice(["", "?ttl=head:1"]),
+                "body": bytes(r.randrange(256) for _ in range(r.choice([1, 50, 9000]))), "meta": None})
+    return {"name": "hook-kill-%d" % seed, "ops": ops, "kill_at": len(ops) - 1, "mode": "hook-kill", "delay_us": 0}
+
+
 def copy_store(src, dst):
     shutil.rmtree(dst, ignore_errors=True)
     shutil.copytree(src, dst, ignore=shutil.ignore_patterns("sock"))
@@ -144,7 +157,7 @@ def judge(case, pre_dump, inflight_sym, image_look, clock, frames_by_op):
             obs = {"ok": None}
             pre_ids = {k for k, _ in pre_dump["stream"]}
             new = [f for k, f in D["stream"] if k not in pre_ids]
-            if op["op"] in ("append", "http") and len(new) == 1:
+            if op["op"] in ("append", "http", "serve") and len(new) == 1:      # (`serve` appends one frame: xs.start)
                 obs = {"ok": new[0]}
                 if op["op"] == "http":
                     op.setdefault("hx", {})["new_id"] = new[0]["id"]
@@ -239,6 +252,15 @@ def run_case(case, torn=False):
                     hashes[H.ssri(body)] = body
             else:
                 op = res.op(i, op)
+            if i == case["kill_at"] and case["mode"] == "hook-kill":
+                # the process kills itself at a sync point inside this operation (armed by the op before): a crash instant
+                # between the frame's journal write and whatever the operation does afterwards
+                try:
+                    w.call(op, timeout=20)
+                except S.WorkerDied:
+                    pass
+                inflight = op
+                break
             if i == case["kill_at"] and case["mode"] == "mid-op":
                 if torn:
                     copy_store(d, base + "-acked")
@@ -294,9 +316,10 @@ def run_case(case, torn=False):
 class StraceWorker(S.Worker):
     """the worker under strace, SIGKILLed on entry to the n-th write(2) of a thread (any file: journal, partitions,
     stdout) - a crash instant at system-call granularity"""
-    def __init__(self, n):
-        self.p = subprocess.Popen(["strace", "-f", "-qq", "-o", "/dev/null", "-e", "trace=write",
-                                   "-e", "inject=write:signal=SIGKILL:when=%d" % n, S.XSW, "store"],
+    def __init__(self, n, calls="write"):
+        # (other system calls for the content store: its blobs arrive by rename, and durability points are fsyncs)
+        self.p = subprocess.Popen(["strace", "-f", "-qq", "-o", "/dev/null", "-e", "trace=" + calls,
+                                   "-e", "inject=%s:signal=SIGKILL:when=%d" % (calls, n), S.XSW, "store"],
                                   stdin=subprocess.PIPE, stdout=subprocess.PIPE, stderr=subprocess.PIPE, text=True, bufsize=1)
         self.timer = None
 
@@ -324,6 +347,17 @@ def sweep_case(seed):
     return {"name": "sweep-%d" % seed, "ops": ops + tail, "mode": "syscall", "kill_at": None}
 
 
+def sweep_http_case(seed):
+    """appends with content over HTTP: the frame's journal write and the content's arrival in the CAS are separate system
+    calls - whichever instant the process dies at, a frame that is visible afterwards has its content"""
+    r = random.Random(seed)
+    body = lambda: r.choice([b"shared-content", bytes(r.randrange(256) for _ in range(r.choice([5, 300])))])
+    ops = [{"op": "open"}, {"op": "serve"}]
+    for _ in range(3):
+        ops.append({"op": "http", "method": "POST", "target": "/c" + r.choice(["", "?ttl=head:1"]), "body": body(), "meta": None})
+    return {"name": "sweep-http-%d" % seed, "ops": ops, "mode": "syscall", "kill_at": None}
+
+
 def run_case_at_write(case, n):
     """run `case`; the process dies on entry to its n-th write. Returns (result | None when it survived)"""
     base = os.path.join(C.SCRATCH, "s%d-%s-%s-%d" % (os.getpid(), threading.get_ident(), hashlib.sha1(case["name"].encode()).hexdigest()[:8], n))
@@ -331,8 +365,9 @@ def run_case_at_write(case, n):
     shutil.rmtree(d, ignore_errors=True); os.makedirs(d)
     t0 = int(time.time() * 1000)
     res = S.Resolver(t0)
-    w = StraceWorker(n)
+    w = StraceWorker(n, case.get("calls", "write"))
     known_ids = set()
+    hashes = {}
     pre_dump, inflight, died = None, None, False
     acked = 0
     trace = []
@@ -345,7 +380,15 @@ def run_case_at_write(case, n):
                     pre_dump = w.call({"op": "dump"}).get("ok")
                     trace.append({"op": {"op": "open", "now": t0}, "obs": o0, "dump": pre_dump})
                     continue
-                op = res.op(i, op)
+                if op["op"] == "http":
+                    body = op.pop("body", b"")
+                    op["headers"] = []; op["body_hex"] = body.hex()
+                    op["hx"] = {"meta_class": "absent", "sse": False, "body_hash": H.ssri(body) if body else ""}
+                    op.pop("meta", None)
+                    if body:
+                        hashes[H.ssri(body)] = body
+                else:
+                    op = res.op(i, op)
                 obs = w.call(op, timeout=60)
                 # the op is acknowledged; if the process dies while the state is being dumped the image may only be
                 # the state after this op: judged as "previous state + this op as a whole"
@@ -371,22 +414,22 @@ def run_case_at_write(case, n):
     if pre_dump is None:
         shutil.rmtree(d, ignore_errors=True)
         return result               # died before the store was open: nothing to judge
-    look = reopen_and_look(d, t0, known_ids, {})
+    look = reopen_and_look(d, t0, known_ids, hashes)
     ACKED.trace = trace
     try:
         v = judge(case, pre_dump, inflight, look, t0, None)
     finally:
         ACKED.trace = None
     if v:
-        v["image"] = "killed on entry to write #%d" % n
+        v["image"] = "killed on entry to %s #%d" % (case.get("calls", "write"), n)
         result["findings"].append(v)
     shutil.rmtree(d, ignore_errors=True)
     return result
 
 
-def syscall_sweep(seed, max_n):
+def syscall_sweep(seed, max_n, http=False, calls="write"):
     """every crash instant of a case at write(2) granularity, until the case runs to its end"""
-    case = sweep_case(seed)
+    case = dict(sweep_http_case(seed) if http else sweep_case(seed), calls=calls)
     out = []
     with ThreadPoolExecutor(max_workers=12) as ex:
         for chunk_start in range(1, max_n + 1, 24):
@@ -487,6 +530,7 @@ def run(prop, tier, seed, replay=None):
     else:
         n = 48 if tier == "quick" else 1200
         cases = [gen_case(seed * 9973 + k) for k in range(n)]
+        cases += [hook_kill_case(seed * 67 + k) for k in range(6 if tier == "quick" else 60)]
     ntorn = 10 if tier == "quick" else 300
     with ThreadPoolExecutor(max_workers=12) as ex:
         results = list(ex.map(lambda ci: run_case(ci[1], torn=ci[0] < ntorn), enumerate(cases)))
@@ -495,6 +539,8 @@ def run(prop, tier, seed, replay=None):
     if not replay:
         for k in range(2 if tier == "quick" else 12):
             sweeps += syscall_sweep(seed * 53 + k, 160 if tier == "quick" else 400)
+        for k in range(1 if tier == "quick" else 6):
+            sweeps += syscall_sweep(seed * 59 + k, 200 if tier == "quick" else 400, http=True)
     results = results + sweeps
     findings = [(r, f) for r in results for f in r["findings"]]
     for k, sr in enumerate(sync_runs):
